@@ -24,7 +24,7 @@ import ast
 
 from . import poly
 from .poly import Poly
-from .interp import Arr, Pose, Obj, ClassRef, Opaque, PathRaise, Unsupported, sym_pose, ga, sa, _Lit
+from .interp import param_const, Arr, Pose, Obj, ClassRef, Opaque, PathRaise, Unsupported, sym_pose, ga, sa, _Lit
 from .algebra import run_obligation, ObFail, custom_edge, CDIM
 
 
@@ -45,7 +45,7 @@ class World:
             self.poses0[j] = it.construct(vtypes[j], [base])
         self.verts = [it.construct("Vertex", [Poly.const(100 + 7 * k), self.poses0[k]], dict(fixed=(k in fixed))) for k in range(len(vtypes))]
         self.edges = []
-        self.state_ids = {}          # (edge index, pose key) -> small integer
+        self.state_ids = it.__dict__.setdefault("_world_state_ids", {})   # (edge index, pose key) -> small integer; shared by the worlds of one path
         self.solves = []             # (H snapshot, rhs snapshot, state key at the time, state key of the last assembly)
         self.last_assembly_state = None
         self.prints = 0
@@ -67,6 +67,7 @@ class World:
             e.stubs["calc_error"] = (lambda ei=ei: (_ for _ in ()).throw(Unsupported("calc_error of an uninterpreted edge")))
             self.edges.append(e)
         self.graph = it.construct("Graph", [self.edges, self.verts])
+        it.maybe_nonfinite.add("dx")          # a singular system makes the solver return nan / inf
         it.overrides["spsolve"] = self.spsolve
         it.overrides["time"] = self.time
         it.overrides["perf_counter"] = self.time
@@ -118,11 +119,21 @@ class World:
         if n is None:
             raise ObFail("spsolve is called with a right-hand side that is not an array")
         kdx = len(self.solves)
-        self.solves.append((H.copy() if isinstance(H, Arr) else H, rhs.copy(), self.state_key(), self.last_assembly_state,
-                            ga(self.graph, "_hessian", None), ga(self.graph, "_gradient", None)))
+        if getattr(self, "fault_at", None) is not None and kdx == self.fault_at:
+            self.fault_at = None
+            self.faulted = self.state_key()
+            raise PathRaise("LinAlgError(the linear solve fails)", "the solver")
         from .interp import sym_vec
-        angles = [self.offs[v] + 2 for v, t in enumerate(self.vtypes) if t == "PoseSE2"]
-        return sym_vec("dx%d" % kdx, n, angle_idx=[a for a in angles if a < n])
+        # the solver is a *function* of its arguments: the same system gives the same step, another system another one
+        table = self.it.__dict__.setdefault("_world_solve_table", {})
+        skey = (tuple(x.key() for x in H.flat()) if isinstance(H, Arr) else id(H), tuple(x.key() for x in rhs.flat()))
+        if skey not in table:
+            angles = [self.offs[v] + 2 for v, t in enumerate(self.vtypes) if t == "PoseSE2"]
+            table[skey] = sym_vec("dx%d" % len(table), n, angle_idx=[a for a in angles if a < n])
+        dx = table[skey]
+        self.solves.append((H.copy() if isinstance(H, Arr) else H, rhs.copy(), self.state_key(), self.last_assembly_state,
+                            ga(self.graph, "_hessian", None), ga(self.graph, "_gradient", None), dx))
+        return Arr(list(dx.data), 1)
 
     def time(self, *a, **k):
         self.clock += 1
@@ -184,7 +195,7 @@ def check_result(it, w, ret, entry_poses, tol, max_iter, label, fixed_now, fails
             stop_at, converged = k, None
             break
         # the solve of step k must be for the system assembled from S_k
-        Harg, rhs, st_key, asm_key, Hcur, bcur = solves[k]
+        Harg, rhs, st_key, asm_key, Hcur, bcur, dxk = solves[k]
         want_key = tuple(w.pose_key(p) for p in states[k])
         if st_key != want_key:
             fails.add("pose", "%sstep %d is solved while the poses are not S_%d of the reference trajectory" % (label, k, k))
@@ -195,13 +206,20 @@ def check_result(it, w, ret, entry_poses, tol, max_iter, label, fixed_now, fails
             fails.add("solve", "%sstep %d: the right-hand side of the solve is not -gradient" % (label, k))
         if Hcur is not None and not (isinstance(Hcur, Arr) and isinstance(Harg, Arr) and Harg.same(Hcur)):
             fails.add("solve", "%sstep %d: the matrix of the solve is not the assembled Hessian" % (label, k))
-        dx = [Poly.var("dx%d[%d]" % (n_solves_before + k, i)) for i in range(sum(w.dims))]
+        dx = list(dxk.data)
         nxt = []
+        # the block of a vertex in the unknown vector is wherever its gradient_index says (another graph over the same vertex objects
+        # may have renumbered them since this graph was built)
+        offs_now = []
+        for v, vert in enumerate(w.verts):
+            gi = ga(vert, "gradient_index", None)
+            c_ = gi.const_value() if isinstance(gi, Poly) else None
+            offs_now.append(int(c_) if c_ is not None else w.offs[v])
         for v, p in enumerate(states[k]):
             if v in fixed_now:
                 nxt.append(p)
             else:
-                step = Arr(dx[w.offs[v]:w.offs[v] + w.dims[v]], 1)
+                step = Arr(dx[offs_now[v]:offs_now[v] + w.dims[v]], 1)
                 moved = it.call_method(Pose(p.cls, list(p.data)), "__iadd__", [step])
                 nxt.append(moved)
         states.append(nxt)
@@ -268,20 +286,94 @@ def check_result(it, w, ret, entry_poses, tol, max_iter, label, fixed_now, fails
 check_result.solves_seen = 0
 
 
-def optimize_obligation(vtypes, edges, fixed, ffp, max_iter, verbose, second_call=False, refix=None, shared=None):
+def fault_obligation(vtypes, edges, fixed, ffp, max_iter, fault_at):
+    """A failing linear solve (the solver raises in iteration fault_at+1): whatever optimize() does with the exception, the fixed
+    vertices hold their original poses afterwards, the flags are the documented ones, and a following optimize() call on the same
+    graph obeys the reference semantics from the state the failed call left behind (no half-finished bookkeeping survives)."""
     def fn(it):
         check_result.solves_seen = 0
         fails = Fails()
-        w = World(it, vtypes, edges, set(fixed), shared=shared)
+        w = World(it, vtypes, edges, set(fixed))
+        w.fault_at = fault_at
         tol = Poly.var("tol")
         entry = [Pose(p.cls, list(p.data)) for p in w.poses0]
         fixed_now = set(fixed) | ({0} if ffp else set())
         objs = [ga(v, "pose") for v in w.verts]
-        ret = it.call_method(w.graph, "optimize", [], dict(tol=tol, max_iter=Poly.const(max_iter), fix_first_pose=ffp, verbose=verbose))
-        final, st = check_result(it, w, ret, entry, tol, max_iter, "", fixed_now, fails)
+        raised = False
+        try:
+            it.call_method(w.graph, "optimize", [], dict(tol=tol, max_iter=param_const(it, max_iter), fix_first_pose=ffp, verbose=False))
+        except PathRaise:
+            raised = True
+        if getattr(w, "faulted", None) is None:
+            return dict(scenario="the run stopped before the failing solve")
         for v in fixed_now:
-            if ga(w.verts[v], "pose") is not objs[v]:
-                fails.add("fixed", "the pose object of fixed vertex %d was replaced" % v)
+            now = ga(w.verts[v], "pose")
+            if not isinstance(now, Pose) or len(now.data) != len(entry[v].data) or any(a != b for a, b in zip(now.data, entry[v].data)):
+                fails.add("fixed", "after an optimize() call whose linear solve failed, the fixed vertex %d does not hold its original pose" % v)
+        if raised:
+            # the graph is still the caller's: a new call starts from the poses as they are now
+            check_result.solves_seen = len(w.solves)
+            cur = [ga(v, "pose") for v in w.verts]
+            entry2 = [Pose(p.cls, list(p.data)) for p in cur]
+            ret2 = it.call_method(w.graph, "optimize", [], dict(tol=tol, max_iter=param_const(it, 1), fix_first_pose=ffp, verbose=False))
+            f2 = Fails()
+            check_result(it, w, ret2, entry2, tol, 1, "optimize() after a call whose solve failed: ", fixed_now, f2)
+            for kind, msg in f2:
+                fails.add("state" if kind in ("report", "stopping") else kind, msg)
+        if fails:
+            raise ObFail(" || ".join("[%s] %s" % km for km in fails))
+        return dict(scenario="solve fails in iteration %d; propagated=%r" % (fault_at + 1, raised))
+    return lambda pkg: run_obligation(pkg, fn, max_paths=512)
+
+
+def split_obligation(vtypes, edges, fixed, ffp, n, k1):
+    """Splitting a run into consecutive optimize() calls reproduces the trajectory of a single call: run A is one call with
+    max_iter=n; run B, on an identical second graph, is max_iter=k1 followed by max_iter=n-k1.  The solver is a function of the
+    system it is given (the same (H, rhs) gives the same step symbol, another system another symbol), so on every path on which
+    A performs all n steps B must solve the same n systems and end in the same poses -- whatever the step rule is, as long as it
+    does not depend on state kept from one iteration / call to the next."""
+    def fn(it):
+        tol = Poly.var("tol")
+        wa = World(it, vtypes, edges, set(fixed))
+        it.call_method(wa.graph, "optimize", [], dict(tol=tol, max_iter=param_const(it, n), fix_first_pose=ffp, verbose=False))
+        if len(wa.solves) < n:
+            return dict(scenario="single call stopped early: nothing to compare on this path")
+        final_a = [wa.pose_key(ga(v, "pose")) for v in wa.verts]
+        steps_a = [tuple(x.key() for x in s_[6].data) for s_ in wa.solves]
+        wb = World(it, vtypes, edges, set(fixed))
+        it.call_method(wb.graph, "optimize", [], dict(tol=tol, max_iter=param_const(it, k1), fix_first_pose=ffp, verbose=False))
+        it.call_method(wb.graph, "optimize", [], dict(tol=tol, max_iter=param_const(it, n - k1), fix_first_pose=ffp, verbose=False))
+        steps_b = [tuple(x.key() for x in s_[6].data) for s_ in wb.solves]
+        final_b = [wb.pose_key(ga(v, "pose")) for v in wb.verts]
+        if len(steps_b) != n:
+            raise ObFail("[state] a %d-iteration run performs %d update steps, the same run split into %d + %d iterations performs %d" % (
+                n, n, k1, n - k1, len(steps_b)))
+        for k in range(n):
+            if steps_a[k] != steps_b[k]:
+                raise ObFail("[state] step %d of a single %d-iteration run solves another linear system than the same step of the run split "
+                             "into %d + %d iterations: the step depends on state carried from earlier iterations, which a new call "
+                             "does not have" % (k + 1, n, k1, n - k1))
+        if final_a != final_b:
+            raise ObFail("[state] a single %d-iteration run and the same run split into %d + %d iterations end in different poses" % (n, k1, n - k1))
+        return dict(scenario="single %d vs split %d+%d" % (n, k1, n - k1))
+    return lambda pkg: run_obligation(pkg, fn, max_paths=512)
+
+
+def optimize_obligation(vtypes, edges, fixed, ffp, max_iter, verbose, second_call=False, refix=None, shared=None, twin=None):
+    def fn(it):
+        check_result.solves_seen = 0
+        fails = Fails()
+        w = World(it, vtypes, edges, set(fixed), shared=shared)
+        if twin is not None:
+            # a second graph over the same vertex and edge objects, listed in another order (it renumbers the vertices' gradient
+            # indices); the first graph is then optimized: a vertex' block is where its gradient_index says *now*
+            it.construct("Graph", [list(reversed(w.edges)), [w.verts[i] for i in twin]])
+        tol = Poly.var("tol")
+        entry = [Pose(p.cls, list(p.data)) for p in w.poses0]
+        fixed_now = set(fixed) | ({0} if ffp else set())
+        objs = [ga(v, "pose") for v in w.verts]
+        ret = it.call_method(w.graph, "optimize", [], dict(tol=tol, max_iter=param_const(it, max_iter), fix_first_pose=ffp, verbose=verbose))
+        final, st = check_result(it, w, ret, entry, tol, max_iter, "", fixed_now, fails)
         if (w.prints > 0) != bool(verbose):
             fails.add("verbose", "verbose=%r but print was called %d time(s)" % (verbose, w.prints))
         flags = [bool(ga(v, "fixed")) for v in w.verts]
@@ -294,7 +386,7 @@ def optimize_obligation(vtypes, edges, fixed, ffp, max_iter, verbose, second_cal
                     sa(v, "fixed", k in refix)           # the user changes the fixed flags between two calls
                 fixed_now = set(refix) | ({0} if ffp else set())
             entry2 = [Pose(p.cls, list(p.data)) for p in final]
-            ret2 = it.call_method(w.graph, "optimize", [], dict(tol=tol, max_iter=Poly.const(1), fix_first_pose=ffp, verbose=verbose))
+            ret2 = it.call_method(w.graph, "optimize", [], dict(tol=tol, max_iter=param_const(it, 1), fix_first_pose=ffp, verbose=verbose))
             f2 = Fails()
             check_result(it, w, ret2, entry2, tol, 1, "second optimize() call on the same graph: ", fixed_now, f2)
             for kind, msg in f2:
@@ -325,6 +417,10 @@ SCENARIOS = [
     # a fixed vertex that no edge refers to, and a graph whose vertices are all fixed
     ("iter2/isolated-fixed-vertex", V3 + ["PoseR2"], E3, (3,), True, 2, False, False),
     ("iter1/all-fixed", V3, E3, (0, 1, 2), False, 1, False, False),
+    ("iter2/twin-graph-lists-the-vertices-in-another-order", V3, E3, (), True, 2, False, False, None, None, (2, 0, 1)),
+    # a *free* vertex that no edge refers to (the system is singular -- the caller's problem -- but optimize() still changes nothing
+    # but poses: in particular it does not mark that vertex fixed behind the caller's back)
+    ("iter2/isolated-free-vertex", V3 + ["PoseR2"], E3, (), True, 2, False, False),
     # fix_first_pose=False and no vertex marked: optimize() fixes nothing on its own
     ("iter1/nothing-fixed", V3, E3, (), False, 1, False, False),
     # 3-D: the ambient length of an SE(3) pose (7) differs from its number of unknowns (6)
@@ -353,5 +449,10 @@ def tasks(prefix, rule, where):
         name, vt, ed, fx, ffp, mi, vb, sc = sc_[:8]
         refix = sc_[8] if len(sc_) > 8 else None
         shared = sc_[9] if len(sc_) > 9 else None
-        out.append(("%s/optimize-semantics/%s" % (prefix, name), rule, optimize_obligation(vt, ed, fx, ffp, mi, vb, sc, refix, shared), where))
+        twin = sc_[10] if len(sc_) > 10 else None
+        out.append(("%s/optimize-semantics/%s" % (prefix, name), rule, optimize_obligation(vt, ed, fx, ffp, mi, vb, sc, refix, shared, twin), where))
+    for n_, k1 in ((2, 1), (3, 1), (3, 2)):
+        out.append(("%s/optimize-semantics/split/%d=%d+%d" % (prefix, n_, k1, n_ - k1), rule, split_obligation(V3, E3, (), True, n_, k1), where))
+    for name, fx, ffp, mi, at in (("fault/solve-fails-in-iteration-1", (), True, 2, 0), ("fault/solve-fails-in-iteration-2", (1,), False, 3, 1)):
+        out.append(("%s/optimize-semantics/%s" % (prefix, name), rule, fault_obligation(V3, E3, fx, ffp, mi, at), where))
     return out
